@@ -128,7 +128,8 @@ class Check:
                 print("KNOWN-FINDING: property=%s %s [%s]" % (self.pid, self._known[key].get("what", what), key))
             self.known_hits[key] = self.known_hits.get(key, 0) + 1
             return False
-        path = self.write_replay(key, what, replay)
+        # at most 40 replay files per run (a broken tree can produce tens of thousands of violations)
+        path = self.write_replay(key, what, replay) if len(self.violations) < 40 else self.violations[-1][2]
         if len(self.violations) < 25:
             print("VIOLATION property=%s replay=%s" % (self.pid, path))
             print("  key=%s  %s" % (key, what))
